@@ -4,6 +4,11 @@
 
 package geometry
 
+import (
+	"math"
+	"sort"
+)
+
 // Line is a open series of points
 type Line struct {
 	baseSeries
@@ -70,42 +75,65 @@ func (line *Line) ContainsLine(other *Line) bool {
 	if line == nil || other == nil || line.Empty() || other.Empty() {
 		return false
 	}
-	// locate the first "other" segment that contains the first "line" segment.
-	lineNumSegments := line.NumSegments()
-	segIdx := -1
-	for j := 0; j < lineNumSegments; j++ {
-		if line.SegmentAt(j).ContainsSegment(other.SegmentAt(0)) {
-			segIdx = j
-			break
-		}
-	}
-	if segIdx == -1 {
-		return false
-	}
+	// every segment of other must be fully covered by segments of line
 	otherNumSegments := other.NumSegments()
-	for i := 1; i < otherNumSegments; i++ {
-		lineSeg := line.SegmentAt(segIdx)
-		otherSeg := other.SegmentAt(i)
-		if lineSeg.ContainsSegment(otherSeg) {
-			continue
-		}
-		if otherSeg.A == lineSeg.A {
-			// reverse it
-			if segIdx == 0 {
-				return false
-			}
-			segIdx--
-			i--
-		} else if otherSeg.A == lineSeg.B {
-			// forward it
-			if segIdx == lineNumSegments-1 {
-				return false
-			}
-			segIdx++
-			i--
+	for i := 0; i < otherNumSegments; i++ {
+		if !line.coversSegment(other.SegmentAt(i)) {
+			return false
 		}
 	}
 	return true
+}
+
+// coversSegment returns true when every point of seg is on the line.
+func (line *Line) coversSegment(seg Segment) bool {
+	if seg.A == seg.B {
+		return line.ContainsPoint(seg.A)
+	}
+	// measure positions along the dominant axis of seg
+	useX := math.Abs(seg.B.X-seg.A.X) >= math.Abs(seg.B.Y-seg.A.Y)
+	lo, hi := seg.A.Y, seg.B.Y
+	if useX {
+		lo, hi = seg.A.X, seg.B.X
+	}
+	if lo > hi {
+		lo, hi = hi, lo
+	}
+	// collect the spans of seg that are covered by collinear line segments
+	var spans [][2]float64
+	line.Search(seg.Rect(), func(lseg Segment, _ int) bool {
+		if seg.CollinearPoint(lseg.A) && seg.CollinearPoint(lseg.B) {
+			a, b := lseg.A.Y, lseg.B.Y
+			if useX {
+				a, b = lseg.A.X, lseg.B.X
+			}
+			if a > b {
+				a, b = b, a
+			}
+			if a < lo {
+				a = lo
+			}
+			if b > hi {
+				b = hi
+			}
+			if a <= b {
+				spans = append(spans, [2]float64{a, b})
+			}
+		}
+		return true
+	})
+	sort.Slice(spans, func(i, j int) bool { return spans[i][0] < spans[j][0] })
+	// the spans must cover seg from end to end without a gap
+	covered := lo
+	for _, span := range spans {
+		if span[0] > covered {
+			return false
+		}
+		if span[1] > covered {
+			covered = span[1]
+		}
+	}
+	return covered >= hi
 }
 
 func (line *Line) IntersectsLine(other *Line) bool {
